@@ -14,7 +14,7 @@ from .. import simenv
 from ..core import Lab, Violation, exc_violation
 from . import inject_reg as R
 
-RELS = ["byname", "prefix", "both", "absent", "wrongtype", "subclass", "falsy", "preset", "init", "private", "generic", "comp_ref", "wrongtype_prefix", "callable", "shared", "wrongtype_both", "tunable"]
+RELS = ["byname", "prefix", "both", "absent", "wrongtype", "subclass", "falsy", "preset", "init", "private", "generic", "comp_ref", "wrongtype_prefix", "callable", "shared", "wrongtype_both", "tunable", "init_some"]
 CTOR_RELS = ["byname", "prefix", "absent", "wrongtype", "comp_earlier", "comp_later", "private", "falsy", "callable", "subclass", "wrongtype_prefix", "wrongtype_both"]
 TYPES = ["Inj", "Other", "int", "str", "tuple", "float"]
 FALSY = {"int": 0, "str": "", "tuple": (), "float": 0.0, "bool": False}
@@ -127,8 +127,10 @@ class Plan:
                 self._put("shared", R.Inj())
         if rel in ("preset", "init") and a.get("also_on_robot"):
             self._put(n, fresh(ann, s))
+        if rel == "init_some" and n not in self.robot_attrs:
+            self._put(n, fresh(ann, s))
         for o in owners:
-            self.requests.append({"owner": o, "attr": n, "ann": ann, "rel": rel, "phase": "ctor" if phase == "ctor" else "attr", "cls": k})
+            self.requests.append({"owner": o, "attr": n, "ann": ann, "rel": rel, "phase": "ctor" if phase == "ctor" else "attr", "cls": k, "par": a.get("par", 0)})
 
     # ---- independent resolver -------------------------------------------
     def resolve(self):
@@ -150,6 +152,10 @@ class Plan:
             else:
                 if n.startswith("_") or rel in ("preset", "init", "tunable"):
                     exp[(o, n)] = ("untouched", rel)
+                    continue
+                if rel == "init_some" and (self._owners(r["cls"]).index(o) + r["par"]) % 2 == 0:
+                    # __init__ of this instance assigned the attribute (the other instances of the class did not)
+                    exp[(o, n)] = ("untouched", "init")
                     continue
                 avail = dict(robot)
                 for c in order:
@@ -199,6 +205,7 @@ def build(plan):
         presets = {}
         base_presets = {}  # class-level values that live on a base class of the component
         inits = {}
+        inits_some = {}  # assigned in __init__ by every other instance of the class only
         for a, target in [(a, ann) for a in cls.get("attrs", [])] + [(a, bann) for a in cls.get("base_attrs", [])]:
             if a["ann"].startswith("class:"):
                 target[a["n"]] = None
@@ -213,6 +220,8 @@ def build(plan):
                 (base_presets if (target is bann or a.get("also_on_robot")) else presets)[a["n"]] = ("preset-sentinel", a["n"])
             if a["rel"] == "init":
                 inits[a["n"]] = ("init-sentinel", a["n"])
+            if a["rel"] == "init_some":
+                inits_some[a["n"]] = (a.get("par", 0), ("init-sentinel", a["n"]))
         ctor = cls.get("ctor", [])
         cann = {}
         for a in ctor:
@@ -227,7 +236,9 @@ def build(plan):
         src = "def __init__(self" + "".join(f", {p}" for p in params) + "):\n"
         src += "    self._ctor_args = {" + ", ".join(f"{p!r}: {p}" for p in params) + "}\n"
         src += "    for k, v in _inits.items(): setattr(self, k, v)\n"
-        env = {"_inits": inits}
+        src += "    i = _count[0]; _count[0] += 1\n"
+        src += "    for k, (par, v) in _inits_some.items():\n        if (i + par) % 2 == 0: setattr(self, k, v)\n"
+        env = {"_inits": inits, "_inits_some": inits_some, "_count": [0]}
         exec(src, env)
         init = env["__init__"]
         init.__annotations__ = cann
@@ -322,7 +333,7 @@ def write_mode(mode):
 
 
 _I = st.integers
-_ATTR = st.tuples(_I(0, 16), _I(0, 5), _I(0, 3), st.booleans())
+_ATTR = st.tuples(_I(0, 17), _I(0, 5), _I(0, 3), st.booleans())
 _CTOR = st.tuples(_I(0, 11), _I(0, 5))
 _CLASS = st.tuples(st.lists(_ATTR, max_size=4), st.lists(_CTOR, max_size=2), st.lists(_ATTR, max_size=1), st.booleans())
 _CASE = st.tuples(st.lists(_CLASS, min_size=1, max_size=3), st.lists(_I(0, 2), min_size=1, max_size=4), _I(0, 4),
@@ -353,6 +364,8 @@ def decode(code):
             a["ann"] = GENERICS[gen_c]
         elif rel in ("preset", "init") and gen_c == 3:
             a["ann"] = ["Optional[Inj]", "Union[int, str]"][type_c % 2]  # a common way to annotate an attribute with a default
+        elif rel == "init_some":
+            a["par"] = gen_c % 2
         elif rel == "tunable":
             a["ann"] = "float"  # kP: float = tunable(0.5) - an attribute that has a value, not an injection request
         elif rel == "private":
@@ -380,7 +393,7 @@ def decode(code):
             cls["attrs"].append(a)
         for j, c in enumerate(base_c):
             a = dec_attr(k, j, c, allow_ref=False, tag="b")
-            if a["n"] in seen or a["rel"] == "init":
+            if a["n"] in seen or a["rel"] in ("init", "init_some"):
                 continue
             seen.add(a["n"])
             cls["base_attrs"].append(a)
@@ -423,7 +436,7 @@ def decode(code):
         seen = set()
         for j, c in enumerate(mode_c):
             a = dec_attr("m", j, c)
-            if a["rel"] == "init" or a["n"] in seen:
+            if a["rel"] in ("init", "init_some") or a["n"] in seen:
                 continue
             seen.add(a["n"])
             attrs.append(a)
